@@ -74,6 +74,19 @@ theorem follow_real (a r : ℕ) (dt over env : ℝ) :
     follow a r dt over env = over + speed (if over < env then r else a) dt * (env - over) := by
   unfold follow; simp only [r32_real]
 
+/-- the gain slope over ℝ: `1/ratio − 1` decibels per decibel over the threshold, and 0 (no change of the
+    dynamics, like a ratio of 1) for a ratio of 0 — the guard the code has since the repair -/
+theorem slope_real (ratio : ℝ) : slope ratio = if ratio = 0 then 0 else 1 / ratio - 1 := by
+  unfold slope
+  by_cases h : ratio = 0
+  · simp [h]
+  · simp [h]
+
+theorem slope_zero : slope (0 : ℝ) = 0 := by rw [slope_real]; simp
+
+theorem slope_of_ne_zero (ratio : ℝ) (h : ratio ≠ 0) : slope ratio = 1 / ratio - 1 := by
+  rw [slope_real]; simp [h]
+
 /-- **one-step contraction**: the distance of the envelope from its target shrinks by exactly the
     smoothing factor of the side it is on (release above the target, attack below) -/
 theorem follow_error (a r : ℕ) (dt over env : ℝ) :
